@@ -1,6 +1,6 @@
 import os, shutil, subprocess, sys, re
 BASE="/root/work/C13/repo"   # a private copy of /repo HEAD (fix-F2..F4 are in it)
-REVERTS = {"R2_revert_fix_F2": "/root/work/C13/fix-F2.diff", "R3_revert_fix_F3": "/root/work/C13/fix-F3.diff", "R4_revert_fix_F4": "/root/work/C13/fix-F4.diff"}
+REVERTS = {"R2_revert_fix_F2": "/root/work/C13/fix-F2.diff", "R3_revert_fix_F3": "/root/work/C13/fix-F3.diff", "R4_revert_fix_F4": "/root/work/C13/fix-F4.diff", "R5_revert_fix_F5": "/root/work/C13/fix-F5.diff"}
 MUTS = {
  "M1_ns_ignores_slash": ("hed/models/hed_tag.py", "            if first_slash != -1 and first_colon > first_slash:\n                return \"\"\n", "            if first_slash != -1 and first_colon > first_slash + 1:\n                return \"\"\n"),
  "M3_twa_without_namespace": ("hed/schema/hed_schema.py", "                                                                    schema_namespace=self._namespace)", "                                                                    schema_namespace=\"\")"),
@@ -13,7 +13,8 @@ MUTS = {
  "M16_find_rem_offbyone": ("hed/schema/hed_schema_group.py", "        return specific_schema._find_tag_entry(tag, schema_namespace)", "        return specific_schema._find_tag_entry(tag, schema_namespace[:-1]) if len(schema_namespace) > 3 else specific_schema._find_tag_entry(tag, schema_namespace)"),
 }
 PATCHES = {"S1_seeded": "/root/work/seedout/C13/1/patch.diff", "S2_seeded_find_tag_entry_guard": "/root/work/seedout/C13/2/patch.diff",
-           "S3_seeded_no_reidentification": "/root/work/seedout/C13/3/patch.diff", "S4_seeded_cached_prefixed_names": "/root/work/seedout/C13/4/patch.diff"}
+           "S3_seeded_no_reidentification": "/root/work/seedout/C13/3/patch.diff", "S4_seeded_cached_prefixed_names": "/root/work/seedout/C13/4/patch.diff",
+           "S8_seeded_get_tag_entry_guard_all_sections": "/root/work/seedout/C13/8/patch.diff"}
 which = sys.argv[1:] or (list(PATCHES) + list(REVERTS) + list(MUTS))
 for name in which:
     d = f"/root/work/C13/mut/{name}"
